@@ -177,6 +177,19 @@ def gen_spec(rng):
         spec["footnote"]["as_table"] = True
     if spec.get("source") is not None and rng.random() < 0.7:
         spec["source"]["as_table"] = True
+    if nc >= 2 and rng.random() < 0.15:
+        # two columns whose names differ only by surrounding blanks or letter case ("n" and "n ")
+        a, b = rng.sample(range(nc), 2)
+        old_b = spec["df"]["cols"][b]["name"]
+        new_b = rng.choice([spec["df"]["cols"][a]["name"] + " ", " " + spec["df"]["cols"][a]["name"],
+                            spec["df"]["cols"][a]["name"].lower()])
+        spec["df"]["cols"][b]["name"] = new_b
+        for k in ("page_by", "subline_by", "group_by"):
+            if isinstance(spec["body"].get(k), list):
+                spec["body"][k] = [new_b if x == old_b else x for x in spec["body"][k]]
+        for mk in ("page_by", "subline_by", "group_by"):
+            if isinstance(spec.get("_meta", {}).get(mk), list):
+                spec["_meta"][mk] = [new_b if x == old_b else x for x in spec["_meta"][mk]]
     return spec
 
 
